@@ -365,26 +365,28 @@ def overlap_table(wave):
     return ov, outside
 
 
-def mask_image(spec, nt, nx, dtype_name):
-    """spec: None | {'kind':'run','start':p,'len':L,'rows':'all'|[r..],'val':v,'dt':'i4'|'bool'} | {'kind':'allbut','keep':[pixels]}"""
+def mask_image(spec, ntr, g, nx):
+    """spec: None | {'kind':'run','start':p,'len':L,'shift':s,'val':v,'dt':'i4'|'bool'} | {'kind':'allbut','keep':[pixels],...}.
+    Image rows are ordered trace-major: row t*g + r is group row r on trace t; 'shift' moves the run by s pixels per trace."""
     if spec is None:
         return None
-    m = np.zeros((nt, nx), dtype=np.int32)
-    rows = range(nt) if spec.get('rows', 'all') == 'all' else spec['rows']
-    for r in rows:
-        if spec['kind'] == 'run':
-            m[r, spec['start']:spec['start'] + spec['len']] = spec.get('val', 1)
-        elif spec['kind'] == 'allbut':
-            m[r, :] = spec.get('val', 1)
-            for k in spec['keep']:
-                m[r, k] = 0
+    m = np.zeros((ntr * g, nx), dtype=np.int32)
+    for t in range(ntr):
+        for r in range(g):
+            if spec['kind'] == 'run':
+                s0 = spec['start'] + spec.get('shift', 0) * t
+                m[t * g + r, s0:s0 + spec['len']] = spec.get('val', 1)
+            elif spec['kind'] == 'allbut':
+                m[t * g + r, :] = spec.get('val', 1)
+                for k in spec['keep']:
+                    m[t * g + r, k] = 0
     if spec.get('dt') == 'bool':
         return m != 0
     return m
 
 
 def flux_rows(spec, nx, pix):
-    """spec: list of row descriptions, each {'c':const, 'imp':[[comb index, amplitude], ...], 'wild':value|None}."""
+    """spec: list of row descriptions, each {'c':const, 'imp':[[comb index, amplitude], ...]}."""
     rows = []
     for rs in spec:
         v = np.zeros(nx, dtype=np.float64) + rs.get('c', 0.0)
@@ -394,17 +396,15 @@ def flux_rows(spec, nx, pix):
     return np.array(rows)
 
 
-def ft_call(cfg, flux, mask):
-    """Call filter_thru for configuration cfg on float64 flux image (cast to cfg dtype)."""
+def ft_call(cfg, flux, mask, nx, coeff, loglam):
+    """Call filter_thru for configuration cfg on a float64 flux image (cast to the cfg dtype)."""
     from pydl.pydlspec2d.spec2d import filter_thru
-    nx, coeff, loglam = sol_loglam(cfg['sol'])
-    nt = flux.shape[0]
     dt = np.float64 if cfg['dtype'] == 'f8' else np.float32
     kw = {}
     if cfg['form'] == 'waveimg':
-        kw['waveimg'] = (10.0 ** loglam[:nt]).astype(dt)
+        kw['waveimg'] = (10.0 ** loglam).astype(dt)
     else:
-        kw['wset'] = make_wset(nx, coeff[:nt])
+        kw['wset'] = make_wset(nx, coeff)
     if mask is not None:
         kw['mask'] = mask
     if cfg['toair']:
@@ -413,81 +413,87 @@ def ft_call(cfg, flux, mask):
 
 
 def check_ft(case):
-    """case: {'f':'ft','cfg':{sol,form,dtype,toair},'mask':spec,'rel':'lin'|'const'|'maskind','rows':[...],'ab':[a,b], 'ncomb':c}"""
+    """case: {'f':'ft','cfg':{sol,form,dtype,toair},'mask':spec,'rel':'lin'|'const'|'maskind'|'hidden','rows':[g row specs],
+    'ab':[a,b],'ncomb':c,'wild':[values],'wildrows':[group rows]}.  The g group rows are evaluated on every trace of the
+    solution in ONE call (image rows trace-major), so relations between rows always compare results for the same wavelengths."""
     cfg = case['cfg']
-    nx, coeff, loglam = sol_loglam(cfg['sol'])
+    nx, coeff0, loglam0 = sol_loglam(cfg['sol'])
+    ntr = loglam0.shape[0]
     pix = comb(nx, case['ncomb'])
     rows = case['rows']
-    nt = len(rows)
-    flux = flux_rows(rows, nx, pix)
-    mask = mask_image(case.get('mask'), nt, nx, cfg['dtype'])
+    g = len(rows)
+    nt = ntr * g
+    coeff = np.repeat(coeff0, g, axis=0)
+    loglam = np.repeat(loglam0, g, axis=0)
+    flux = np.tile(flux_rows(rows, nx, pix), (ntr, 1))
+    mask = mask_image(case.get('mask'), ntr, g, nx)
     good = np.ones((nt, nx), dtype=bool) if mask is None else (np.asarray(mask) == 0)
     wild = case.get('wild')
     fin = flux.copy()
     if wild is not None:
-        # rows listed in case['wildrows'] get the wild value in their masked pixels
         for r, val in zip(case['wildrows'], wild):
-            fin[r, ~good[r]] = val
+            for t in range(ntr):
+                fin[t * g + r, ~good[t * g + r]] = val
     tol = (1e-9 if cfg['dtype'] == 'f8' else 2e-5)
-    wave = 10.0 ** loglam[:nt]
+    wave = 10.0 ** loglam
     ov, outside = overlap_table(wave)
     bad = []
-    nogood = [r for r in range(nt) if not good[r].any()]
+    nogood = [R for R in range(nt) if not good[R].any()]
     try:
-        res = ft_call(cfg, fin, mask)
+        res = ft_call(cfg, fin, mask, nx, coeff, loglam)
     except Exception as e:
         return [('filter_thru:exception:%s' % type(e).__name__, repr(e))], 'exc', True
     if res.shape != (nt, 5):
         return [('filter_thru:shape', str(res.shape))], 'bad', True
     if not np.all(np.isfinite(res)) and not nogood:
-        bad.append(('filter_thru:non-finite', str(res.tolist())))
-        return bad, 'bad', True
-    scale = np.array([max(1.0, float(np.max(np.abs(flux[r])))) for r in range(nt)])
+        return [('filter_thru:non-finite', str(res.tolist()))], 'bad', True
+    scale = np.array([max(1.0, float(np.max(np.abs(flux[R])))) for R in range(nt)])
     sure = ov == 1
     rel = case['rel']
-    # ---- within min and max of the flux (overlapped bands)
-    for r in range(nt):
-        if r in nogood:
+    for R in range(nt):
+        if R in nogood:
             continue
-        g = flux[r][good[r]]
-        lo, hi = float(g.min()), float(g.max())
+        rs = rows[R % g]
+        # ---- within the minimum and maximum of the (unmasked) flux, in overlapped bands
+        gd = flux[R][good[R]]
+        lo, hi = float(gd.min()), float(gd.max())
         for b in range(5):
-            if sure[r, b] and not (lo - tol * scale[r] <= res[r, b] <= hi + tol * scale[r]):
-                bad.append(('filter_thru:outside-min-max', 'trace %d band %d: %r not in [%r, %r]' % (r, b, res[r, b], lo, hi)))
-    # ---- constants are preserved; impulses outside the band get zero weight
-    for r, rs in enumerate(rows):
-        if r in nogood:
-            continue
+            if sure[R, b] and not (lo - tol * scale[R] <= res[R, b] <= hi + tol * scale[R]):
+                bad.append(('filter_thru:outside-min-max', 'trace %d row %d band %d: %r not in [%r, %r]' % (R // g, R % g, b, res[R, b], lo, hi)))
+        # ---- constants are preserved; impulses outside the support of a band get zero weight
         if not rs.get('imp'):
             for b in range(5):
-                if sure[r, b] and abs(res[r, b] - rs.get('c', 0.0)) > tol * scale[r]:
-                    bad.append(('filter_thru:constant-not-preserved', 'trace %d band %d: c=%r got %r' % (r, b, rs.get('c', 0.0), res[r, b])))
+                if sure[R, b] and abs(res[R, b] - rs.get('c', 0.0)) > tol * scale[R]:
+                    bad.append(('filter_thru:constant-not-preserved', 'trace %d band %d: c=%r got %r' % (R // g, b, rs.get('c', 0.0), res[R, b])))
         elif mask is None and rs.get('c', 0.0) == 0.0:
             for b in range(5):
-                if all(outside[r, pix[j], b] for j, a in rs['imp']) and ov[r, b] != -1 and res[r, b] != 0.0:
+                if all(outside[R, pix[j], b] for j, a in rs['imp']) and res[R, b] != 0.0:
                     bad.append(('filter_thru:weight-outside-band', 'trace %d band %d: impulse at %s A got %r'
-                                % (r, b, [float(wave[r, pix[j]]) for j, a in rs['imp']], res[r, b])))
+                                % (R // g, b, [float(wave[R, pix[j]]) for j, a in rs['imp']], res[R, b])))
     if rel == 'lin':
         a, b_ = case['ab']
-        exp = a * res[0] + b_ * res[1]
-        s = abs(a) * scale[0] + abs(b_) * scale[1]
-        if not np.all(np.abs(res[2] - exp) <= tol * s):
-            bad.append(('filter_thru:not-linear', 'F(a f1 + b f2) - a F(f1) - b F(f2) = %s' % (res[2] - exp).tolist()))
-    elif rel == 'maskind':
-        # all rows are the same flux up to the values of masked pixels
-        for r in range(1, nt):
-            same = np.abs(res[r] - res[0]) <= tol * scale[0]
-            if not np.all(same):
-                trig = ':no-good-pixel' if nogood else ''
-                bad.append(('filter_thru:depends-on-masked-values' + trig,
-                            'masked pixels set to %r change the result by %s' % (wild[case['wildrows'].index(r)] if r in case['wildrows'] else None,
-                                                                                   (res[r] - res[0]).tolist())))
+        for t in range(ntr):
+            r0 = t * g
+            exp = a * res[r0] + b_ * res[r0 + 1]
+            s = abs(a) * scale[r0] + abs(b_) * scale[r0 + 1]
+            if not np.all(np.abs(res[r0 + 2] - exp) <= tol * s):
+                bad.append(('filter_thru:not-linear', 'trace %d: F(a f1 + b f2) - a F(f1) - b F(f2) = %s' % (t, (res[r0 + 2] - exp).tolist())))
                 break
+    elif rel == 'maskind':
+        # all group rows are the same flux up to the values of masked pixels
+        done = False
+        for t in range(ntr):
+            for r in range(1, g):
+                if not np.all(np.abs(res[t * g + r] - res[t * g]) <= tol * scale[t * g]) and not done:
+                    trig = ':no-good-pixel' if (t * g) in nogood else ''
+                    wv = wild[case['wildrows'].index(r)] if r in case['wildrows'] else None
+                    bad.append(('filter_thru:depends-on-masked-values' + trig,
+                                'trace %d: masked pixels set to %r change the result by %s' % (t, wv, (res[t * g + r] - res[t * g]).tolist())))
+                    done = True
     nt_ = bool(sure.any())
     if bad:
         return bad, 'bad', nt_
-    nb = int(sure[0].sum())
-    out = 'ok:%s:%s:%dbands-overlapped%s' % (rel, cfg['form'], nb, ':masked' if mask is not None else '')
+    out = 'ok:%s:%s:%d(trace,band)overlaps%s' % (rel, cfg['form'], int(sure[::g].sum()), ':masked' if mask is not None else '')
     return bad, out, nt_
 
 
